@@ -852,7 +852,7 @@ fn prim_into_ring(c: &PrimCase, _ctx: &Ctx) -> Out {
 fn main() {
     let mut ck = Check::new(
         "C13",
-        "rings built from modulus classes (1, 2, 2^k for k<64 / 64..127 / multi-word, one word odd/even with and without normalisation shift, two words normalised/shifted/low word zero, 3, 4, 5-32, 33, 40 words, even and low-words-zero multi-word, shared-factor moduli m=g·l) × operands up to 193 words longer than moduli of 1..386 words (sub reduce_long); elements built relative to the modulus (0, 1, m-1, m, m+1, 2m-1, k·m, m/2, random below m, random up to twice the modulus length, b=a, b=m-a, multiples of g; both signs; primitives of every width) × exponents (0, 1, 2, small, 2^k, 2^64±1, two-word, up to 12 words; sub pow_long_exponents: dense exponents of 769..72 000 bits, i.e. every window length up to 11, in rings of 1..6 words); every operator form of + - * /, Neg, dbl, sqr, pow, inv, ==, residue, modulus, IntoRing and the num_modular::Reducer impl compared with operate-then-reduce in num-bigint (square-and-multiply cross-checked with modpow); residues in [0,m); inv is Some exactly for gcd=1; division by a non-invertible element and any mixing of two ConstDivisor instances must panic with the documented message. Non-trivial: modulus >= 2 words or exponent >= 2; distinct by case digest.",
+        "rings built from modulus classes (1, 2, 2^k for k<64 / 64..127 / multi-word, one word odd/even with and without normalisation shift, two words normalised/shifted/low word zero, 3, 4, 5-32, 33, 40 words, even and low-words-zero multi-word, shared-factor moduli m=g·l) × operands up to 193 words longer than moduli of 1..386 words (sub reduce_long); elements built relative to the modulus (0, 1, m-1, m, m+1, 2m-1, k·m, m/2, random below m, random up to twice the modulus length, b=a, b=m-a, multiples of g; both signs; primitives of every width) × exponents (0, 1, 2, small, 2^k, 2^64±1, two-word, up to 12 words; sub pow_long_exponents: dense exponents of 769..72 000 bits, i.e. every window length up to 11, in rings of 1..6 words; sub inv_lehmer_dword: inverses in rings of 300+ words whose modulus / element pair has chosen partial quotients); every operator form of + - * /, Neg, dbl, sqr, pow, inv, ==, residue, modulus, IntoRing and the num_modular::Reducer impl compared with operate-then-reduce in num-bigint (square-and-multiply cross-checked with modpow); residues in [0,m); inv is Some exactly for gcd=1; division by a non-invertible element and any mixing of two ConstDivisor instances must panic with the documented message. Non-trivial: modulus >= 2 words or exponent >= 2; distinct by case digest.",
     );
     ck.assume("num-modular 0.6 only for the `Reducer` trait definition (its primitive-word arithmetic is part of what dashu delegates to, not of the oracle)");
     let th = ck.thorough();
@@ -919,6 +919,37 @@ fn main() {
             let pw = modpow_ref(&ra, &ne, &nm);
             let e = c.e.ubig();
             chk_pow(&mut out, ctx, "Reduced::pow (long exponent)", &catch(|| x.pow(&e).residue()), &pw, &nm, &ne);
+            out
+        },
+    );
+    // inverses in rings of 300 words and more: `inv` runs the extended Lehmer gcd with its
+    // double-word guesses; modulus and element are a pair whose continued fraction starts with
+    // chosen partial quotients (see dv::gen::lehmer_quotient_pair)
+    ck.sub(
+        "inv_lehmer_dword",
+        (1_500, 60_000),
+        || {
+            (300usize..=312, 0usize..6, any::<u64>(), 0u8..8, 0usize..3).prop_map(|(lp, gap, seed, shape, pre)| {
+                let (p, q) = gen::lehmer_quotient_pair(lp, gap, seed, shape, pre);
+                RingCase { m: Nat::from_big(&p), a: Int { neg: false, mag: Nat::from_big(&q) }, b: Int { neg: false, mag: Nat(vec![1]) }, e: Nat(vec![1]) }
+            })
+        },
+        |c: &RingCase, _ctx: &Ctx| {
+            let mut out = Out::new();
+            let nm = c.m.big();
+            out.nontrivial(true);
+            mod_labels(&mut out, &c.m);
+            let ring = match catch(|| ConstDivisor::new(c.m.ubig())) {
+                Ok(r) => r,
+                Err(m) => {
+                    out.fail(format!("ConstDivisor::new: unexpected panic {}", normalise(&m)));
+                    return out;
+                }
+            };
+            let ra = red(&c.a.big(), &nm);
+            let x = ring.reduce(c.a.ibig());
+            let one = ring.reduce(1u8);
+            inv_div(&mut out, "a", &x, &ra, &one, &(BigUint::one() % &nm), &nm);
             out
         },
     );
